@@ -17,6 +17,7 @@ EITHER zones (docs leave it open, either accepted):
 import itertools
 import math
 import warnings
+import zlib
 
 import numpy as np
 import tskit
@@ -24,24 +25,41 @@ import tskit
 from lib import gen
 from lib.harness import case_rng
 from lib.model import NODE_IS_SAMPLE, NULL, Forest, RowModel, sort_edges_key
-from lib.treecheck import check_tree
+from lib.treecheck import check_tree as _check_tree
 from lib.tsk import to_ts
 
 ID = "C01"
 
+
+
+def check_tree(tree, *a, **kw):
+    """lib.treecheck.check_tree; a library error on a positioned tree of a valid tree sequence, queried with valid
+    node ids and the options it was built with, is itself a finding (not an inconclusive harness error)."""
+    try:
+        return _check_tree(tree, *a, **kw)
+    except (tskit.LibraryError, RecursionError, SystemError, MemoryError) as ex:
+        return [("exception", f"tree {tree.index}: {type(ex).__name__}: {ex}")]
+
+
 N_SPECIAL = 10
+BIG_KINDS = ["star", "chain", "comb", "isolated", "two-level", "broom", "star", "chain"]
 
 
 def cases(tier, seed):
     n = 12000 if tier == "quick" else 1500000
+    counters = {"big": 0, "special": 0}
     for k in range(n):
-        r = k % 60
+        # family by a hash of k, so that every shard (idx % workers, any worker count) sees every family
+        r = zlib.crc32(b"%d" % k) % 60
         if r == 59:
             yield {"gen": "msprime", "k": k}  # larger inputs with many trees (arbitrary doubles, ARG nodes)
         elif r in (7, 37):
-            yield {"gen": "big", "k": k}  # >= 256 children / samples / roots, chains of depth > 256
+            # >= 256 children / samples / roots, chains of depth > 256; the kinds are cycled, not drawn
+            yield {"gen": "big", "k": k, "kind": BIG_KINDS[counters["big"] % len(BIG_KINDS)]}
+            counters["big"] += 1
         elif r == 23:
-            yield {"gen": "special", "k": k}  # fixed structural extremes, cycled
+            yield {"gen": "special", "k": k, "j": counters["special"] % N_SPECIAL}  # fixed structural extremes, cycled
+            counters["special"] += 1
         else:
             yield {"gen": "walk", "k": k}
     # exhaustive small scope is enumerated after the random cases (thorough only)
@@ -119,11 +137,11 @@ def _from_parent_maps(rng, times, flags, maps, bounds):
     return m
 
 
-def build_big(rng):
+def build_big(rng, kind=None):
     """Instances past the sizes where a narrow counter, a short stack or a quadratic shortcut would show:
     >= 256 children of one node, >= 256 roots, >= 256 samples, paths longer than 256 edges."""
-    kind = rng.choice(["star", "star", "chain", "chain", "comb", "isolated", "two-level", "broom"])
-    K = rng.choice([255, 256, 257, 300, 320])
+    kind = kind or rng.choice(BIG_KINDS)
+    K = rng.choice([255, 256, 257, 258, 300])
     S = NODE_IS_SAMPLE
     if kind == "star":
         # K leaves below one root; in the second tree a block of leaves hangs below a second, older root
@@ -137,7 +155,7 @@ def build_big(rng):
             b[K] = K + 1
         maps = [a, b]
     elif kind == "chain":
-        D = rng.choice([257, 300, 420])
+        D = rng.choice([256, 257, 300])
         times = [float(i) for i in range(D + 1)]
         mode = rng.choice(["bottom", "all", "some"])
         flags = [S if (i == 0 or mode == "all" or (mode == "some" and rng.random() < 0.3)) else 0
@@ -164,13 +182,14 @@ def build_big(rng):
         maps = [a, b]
     elif kind == "isolated":
         # K isolated samples (K roots) and one cherry; second tree: everything isolated, or a star appears
+        K = max(K, 258)
         times = [0.0] * K + [1.0]
         flags = [S] * K + [0]
         a = {0: K, 1: K}
         b = {} if rng.random() < 0.5 else {u: K for u in range(K)}
         maps = [a, b, a][: rng.choice([2, 3])]
     elif kind == "two-level":
-        g = rng.choice([16, 18])
+        g = rng.choice([16, 17])
         # root R with g children, each with g leaf samples: g*g >= 256 samples
         leaves = g * g
         times = [0.0] * leaves + [1.0] * g + [2.0]
@@ -184,7 +203,7 @@ def build_big(rng):
         del b[leaves + rng.randrange(g)]  # one whole group becomes its own root
         maps = [a, b]
     else:  # broom: a long handle (unary chain) with K bristles at the bottom node
-        D = 260
+        D = 257
         times = [0.0] * K + [float(i + 1) for i in range(D)]
         flags = [S] * K + [0] * D
         a = {u: K for u in range(K)}
@@ -202,10 +221,10 @@ def build_big(rng):
     return m
 
 
-def build_special(rng, k):
-    """Fixed structural extremes (cycled by case number), lightly decorated."""
+def build_special(rng, j):
+    """Fixed structural extremes (cycled by case number)."""
     S = NODE_IS_SAMPLE
-    j = (k // 60) % N_SPECIAL
+    j = j % N_SPECIAL
     L = rng.choice([1.0, 8.0])
     m = RowModel(L)
 
@@ -282,9 +301,9 @@ def build(case):
     if g == "msprime":
         return rng, build_msprime(rng)
     if g == "big":
-        return rng, build_big(rng)
+        return rng, build_big(rng, case.get("kind"))
     if g == "special":
-        return rng, build_special(rng, case["k"])
+        return rng, build_special(rng, case.get("j", case["k"] // 60))
     big = rng.random() < 0.15
     m = gen.gen_full(rng, max_nodes=24 if big else 9, max_bp=10 if big else 5, max_sites=6)
     if rng.random() < 0.25:
@@ -402,21 +421,54 @@ def index_of(bps, x):
     raise AssertionError(x)
 
 
+def make_ts(m, rng, ctx):
+    """The same rows turned into a TreeSequence through the different public routes."""
+    r = rng.random()
+    if r < 0.75:
+        return to_ts(m)
+    from lib.tsk import to_tables
+    form = rng.choice(["build_index", "load_tables", "dump_tables", "file", "pickle", "tables-prop"])
+    ctx.feature("ts-form:" + form)
+    if form == "build_index":
+        tc = to_tables(m)
+        tc.build_index()
+        return tc.tree_sequence()
+    if form == "load_tables":
+        return tskit.TreeSequence.load_tables(to_tables(m), build_indexes=True)
+    ts = to_ts(m)
+    if form == "dump_tables":
+        return ts.dump_tables().tree_sequence()
+    if form == "tables-prop":
+        return tskit.TableCollection.fromdict(ts.tables.asdict()).tree_sequence()
+    if form == "pickle":
+        import pickle
+        return pickle.loads(pickle.dumps(ts))
+    import os
+    import tempfile
+    fd, path = tempfile.mkstemp(prefix="c01-", suffix=".trees")
+    os.close(fd)
+    try:
+        ts.dump(path)
+        return tskit.load(path)
+    finally:
+        os.unlink(path)
+
+
 # ---------------------------------------------------------------------- the case
 
 
 def run_case(case, ctx):
     rng, m = build(case)
-    tags = gen.topo_tags(m) if m.num_nodes <= 64 else set(m.tags)
+    large = case.get("gen") == "big"
+    tags = gen.topo_tags(m) if not large else set(m.tags)
     for t in tags:
         ctx.feature(t)
     ctx.feature("gen:" + case.get("gen", "walk"))
     ctx.sig(m.signature(), nontrivial=len(m.edges) > 0)
     ctx.sample({"case": case, "model": m.to_json()}) if case["k"] < 2 else None
-    ts = to_ts(m)
+    ts = make_ts(m, rng, ctx)
     bps = m.breakpoints()
     ntrees = len(bps) - 1
-    large = m.num_nodes > 64
     mj = m.to_json() if not large else {"gen": case.get("gen"), "tags": sorted(m.tags), "num_nodes": m.num_nodes,
                                         "edges": len(m.edges), "note": "large model: replay the case"}
 
@@ -453,10 +505,14 @@ def run_case(case, ctx):
             idx += 1
         if idx != ntrees:
             ctx.violation("iteration", f"trees() yielded {idx} trees, expected {ntrees}")
+        elif tree.index != -1 or tree.num_edges != 0 or tuple(tree.interval) != (0, 0):
+            # "Upon successful termination of the iterator, the tree will be in the cleared null state"
+            ctx.violation("iteration", f"after trees() ended the tree has index {tree.index}, {tree.num_edges} edges, "
+                          f"interval {tuple(tree.interval)}", {"model": mj})
         # reversed iteration
         idx = ntrees - 1
         for tree in reversed(trees_iter(ts, rng, opts, ctx)):
-            deep = rng.random() < 0.15
+            deep = rng.random() < 0.05
             bad = check_tree(tree, m, opts, deep=deep, rng=rng, wide=True)
             ctx.count("check_tree:reversed")
             if tree.index != idx:
@@ -471,43 +527,60 @@ def run_case(case, ctx):
                 xs[1] = rng.choice([math.nextafter(l, math.inf), l + (r - l) * rng.random(),
                                     -0.0 if i == 0 else l])
                 ctx.feature("at:neighbour-of-left-end")
-            for x in xs:
+            full = rng.randrange(3)
+            for k, x in enumerate(xs):
                 akw = tree_kwargs(rng, opts, ctx)
                 xf = position_form(rng, x, ctx)
                 tree = ts.at(xf, **akw)
-                ctx.count("check_tree:at")
                 bad = []
                 if tree.index != i:
                     bad.append(("at", f"at({xf!r}) landed on tree {tree.index}, expected {i}"))
-                bad += check_tree(tree, m, opts, deep=False, wide=True)
+                if k == full:
+                    ctx.count("check_tree:at")
+                    bad += check_tree(tree, m, opts, deep=False, wide=True)
+                else:
+                    # the three positions of one interval reach the same tree the same way: landing place and
+                    # parent map only
+                    ctx.count("at:landing")
+                    exp = m.forest_at(l)
+                    pa = tree.parent_array
+                    if tuple(tree.interval) != (l, r) or [int(pa[u]) for u in range(m.num_nodes)] != \
+                            [exp.get(u, NULL) for u in range(m.num_nodes)] or tree.num_edges != len(exp):
+                        bad.append(("at", f"at({xf!r}): interval {tuple(tree.interval)} parents {list(pa)} expected "
+                                    f"({l},{r}) {exp}"))
                 report(bad, f"at({xf!r})", opts)
             j = rng.choice([i, i, i - ntrees, np.int64(i), np.int32(i - ntrees)])
             tree = ts.at_index(j, **tree_kwargs(rng, opts, ctx))
             ctx.count("check_tree:at_index")
             if int(j) < 0:
                 ctx.feature("at_index:negative")
-            bad = check_tree(tree, m, opts, deep=rng.random() < 0.1, rng=rng, wide=True)
+            bad = check_tree(tree, m, opts, deep=rng.random() < 0.05, rng=rng, wide=True)
             if tree.index != i:
                 bad.append(("at_index", f"at_index({j!r}) landed on {tree.index}, expected {i}"))
             report(bad, f"at_index({j!r})", opts)
-        for how, tree, i in (("first", ts.first(**kw), 0), ("last", ts.last(**kw), ntrees - 1)):
+        fl = [("first", ts.first(**kw), 0), ("last", ts.last(**kw), ntrees - 1)]
+        for how, tree, i in fl if ntrees > 1 or opts["sample_lists"] else fl[:1]:
             ctx.count("check_tree:first/last")
             bad = check_tree(tree, m, opts, deep=False, wide=True)
             if tree.index != i:
                 bad.append((how, f"{how}() landed on {tree.index}"))
             report(bad, how, opts)
         # copies: Tree.copy() of a positioned tree and ts.aslist() with the same options (both duplicate the C tree)
-        for i, tree in enumerate(ts.aslist(**kw)):
-            ctx.count("check_tree:aslist")
-            bad = check_tree(tree, m, opts, deep=False, wide=True)
+        trees = ts.aslist(**kw)
+        if len(trees) != ntrees:
+            ctx.violation("aslist", f"aslist() has {len(trees)} trees, expected {ntrees}", {"model": mj})
+        for i, tree in enumerate(trees):
             if tree.index != i:
-                bad.append(("aslist", f"aslist()[{i}] has index {tree.index}"))
-            report(bad, "aslist(**options)", opts)
+                report([("aslist", f"aslist()[{i}] has index {tree.index}")], "aslist(**options)", opts)
+            if not opts["sample_lists"] and rng.random() < 0.5:
+                continue  # aslist is trees() + copy(), both also checked separately
+            ctx.count("check_tree:aslist")
+            report(check_tree(tree, m, opts, deep=False, wide=True), "aslist(**options)", opts)
         for tree in ts.trees(**kw):
             if rng.random() < 0.5:
                 ctx.count("check_tree:copy")
                 cp = tree.copy()
-                report(check_tree(cp, m, opts, deep=rng.random() < 0.2, rng=rng, wide=True), "trees() -> copy()", opts)
+                report(check_tree(cp, m, opts, deep=rng.random() < 0.1, rng=rng, wide=True), "trees() -> copy()", opts)
                 if rng.random() < 0.5:
                     # a copy is a full Tree: it must be able to walk on from where the original stood, in both
                     # directions, without disturbing the original
@@ -515,8 +588,7 @@ def run_case(case, ctx):
         # one Tree object reused: forward sweep, step off the end, backward sweep, first/last on a positioned tree
         tree = tskit.Tree(ts, kw["tracked_samples"], sample_lists=kw["sample_lists"],
                           root_threshold=kw["root_threshold"]) if "tracked_samples" in kw else tskit.Tree(ts, **kw)
-        seq = (["first"] + ["next"] * ntrees + ["last"] + ["prev"] * ntrees + ["first", "last", "first"]
-               + (["next"] if ntrees > 1 else []) + ["last", "prev", "first"])
+        seq = ["first"] + ["next"] * ntrees + ["last"] + ["prev"] * ntrees + ["first", "last", "first"]
         pos = -1
         ok = True
         for op in seq:
@@ -527,6 +599,9 @@ def run_case(case, ctx):
             elif op == "prev":
                 pos = ntrees - 1 if pos == -1 else pos - 1
             ctx.count("check_tree:reused-tree")
+            if op in ("next", "prev") and (r is not True and r is not False or r != (pos != -1)):
+                ctx.violation("tree/reused/return", f"reused Tree: {op}() returned {r!r} on reaching index {pos}",
+                              {"model": mj})
             if tree.index != pos:
                 ctx.violation("tree/reused/index", f"reused Tree after {op}: index {tree.index} expected {pos}", {"model": mj})
                 ok = False
@@ -538,7 +613,7 @@ def run_case(case, ctx):
         if ok:
             random_jumps(tree, m, opts, rng, ctx, report, bps, pos)
     # aslist
-    if rng.random() < 0.3:
+    if rng.random() < 0.15:
         for i, tree in enumerate(ts.aslist()):
             ctx.count("check_tree:aslist")
             report(check_tree(tree, m, {"root_threshold": 1}, deep=False, wide=True), "aslist", {})
@@ -563,7 +638,7 @@ def walk_copy(cp, orig, m, opts, rng, ctx, report, ntrees):
             return
         if pos >= 0:
             report(check_tree(cp, m, opts, deep=False, wide=True), f"copy() -> ...{op}", opts)
-    report(check_tree(orig, m, opts, deep=False), "original after its copy moved", opts)
+    report(check_tree(orig, m, opts, deep=False, wide=True), "original after its copy moved", opts)
 
 
 def random_jumps(tree, m, opts, rng, ctx, report, bps, pos):
@@ -615,6 +690,8 @@ def run_large(ts, m, rng, ctx, report, bps, mj):
     samples = m.samples()
     K = len(samples)
     thr = rng.choice([1, 1, 2, 255, 256, 257, max(1, K), K + 1])
+    if "big:isolated" in m.tags and rng.random() < 0.7:
+        thr = 1  # keep the >= 256 roots
     tracked = rng.sample(samples, rng.choice([K // 2, K, max(0, K - 1), min(K, 256)])) if K else None
     opts = {"sample_lists": True, "root_threshold": thr, "tracked": tracked}
     kw = tree_kwargs(rng, opts, ctx, vary=False)
@@ -622,7 +699,6 @@ def run_large(ts, m, rng, ctx, report, bps, mj):
     for i, tree in enumerate(ts.trees(**kw)):
         ctx.count("check_tree:trees()")
         ctx.count("check_tree:large")
-        ctx.count("wide-deep")
         mx = max(int(v) for v in tree.num_children_array)
         if mx >= 256:
             ctx.feature("large:num_children>=256")
@@ -630,7 +706,9 @@ def run_large(ts, m, rng, ctx, report, bps, mj):
             ctx.feature("large:num_roots>=256")
         if max((tree.depth(u) for u in (0, m.num_nodes // 2)), default=0) >= 256:
             ctx.feature("large:depth>=256")
-        report(check_tree(tree, m, opts, deep=True, rng=rng, wide=True), "trees() [large]", opts)
+        deep = i == 0 or rng.random() < 0.3
+        ctx.count("wide-deep") if deep else None
+        report(check_tree(tree, m, opts, deep=deep, rng=rng, wide=True), "trees() [large]", opts)
     opts2 = {"sample_lists": False, "root_threshold": rng.choice([1, 2]), "tracked": None}
     kw2 = tree_kwargs(rng, opts2, ctx, vary=False)
     for tree in reversed(ts.trees(**kw2)):
@@ -646,9 +724,11 @@ def run_large(ts, m, rng, ctx, report, bps, mj):
     ctx.count("check_tree:copy")
     report(check_tree(cp, m, opts, deep=False, wide=True), "at() -> copy() [large]", opts)
     walk_copy(cp, tree, m, opts, rng, ctx, report, ntrees)
-    tree = tskit.Tree(ts, **kw)
+    # the reused object keeps the tracked samples but not the sample lists (their walk is quadratic on a chain)
+    opts = dict(opts, sample_lists=False)
+    tree = tskit.Tree(ts, **tree_kwargs(rng, opts, ctx, vary=False))
     pos = -1
-    for op in ["first"] + ["next"] * ntrees + ["prev"] * ntrees + ["last", "first"]:
+    for op in ["first"] + ["next"] * ntrees + ["prev"] * ntrees + ["last"]:
         getattr(tree, op)()
         pos = {"first": 0, "last": ntrees - 1}.get(op, pos)
         if op == "next":
@@ -661,9 +741,6 @@ def run_large(ts, m, rng, ctx, report, bps, mj):
             return
         if pos >= 0:
             report(check_tree(tree, m, opts, deep=False, wide=True), f"reused Tree after ...{op} [large]", opts)
-    for i, tree in enumerate(ts.aslist(**kw2)):
-        ctx.count("check_tree:aslist")
-        report(check_tree(tree, m, opts2, deep=False, wide=True), "aslist [large]", opts2)
 
 
 # ---------------------------------------------------------------------- edge_diffs / edgesets / coiterate
